@@ -20,7 +20,7 @@ DC_Walk_ == \A P \in Ps, lvl \in {"w", "r"} : DC_WalkFirstFailing(G, P, Root, Tr
 DC_OpaqueFile_ == \A P \in Ps : TraverseB(G, P, Root, "w") = Traverse(Opaque(G, P), Root, "w")
 DC_NoBlacklistIsC21_ == /\ TraverseB(G, {}, Root, "w") = V
                         /\ DeepCheckOf(G, {}, [o \in DOMAIN G.type |-> N], K, N, Root, "w").stats = Stats(V, G)
-DC_Report_ == \A P \in Ps, H \in Hs : DC_CheckFirstFailing(G, P, H, K, N, Root, DeepCheckOf(G, P, H, K, N, Root, "w")) = ""
+DC_Report_ == \A P \in Ps, H \in Hs : LET R == DeepCheckOf(G, P, H, K, N, Root, "w") IN DC_CheckFirstFailing(G, P, H, K, N, Root, R) = ""
 \* "equal to the C21 traversal set": without a blacklist the objects checked are the distributed visited objects
 DC_SameSetAsC21_ ==
   LET R == DeepCheckOf(G, {}, [o \in DOMAIN G.type |-> N], K, N, Root, "w") IN
